@@ -57,9 +57,11 @@ class LU:
             ]),
         }
 
+    inq_len = 96
+
     def std_inquiry(self):
         return R.std_inquiry(self.dev_type, self.qualifier, rmb=self.rmb, vendor=self.vendor,
-                             product=self.product, revision=self.revision)
+                             product=self.product, revision=self.revision, length=self.inq_len)
 
     def inquiry(self, f):
         if not f["evpd"]:
@@ -97,7 +99,10 @@ class LU:
         want = C.cdb_len(cdb[0]) if cdb else None
         if name is None or want is None or len(cdb) != want:
             self.log.append(("?", {"cdb": cdb.hex()}))
-            return cc(*ILLEGAL_OPCODE)
+            st = cc(*ILLEGAL_OPCODE)
+            if getattr(self, "d_sense", False):
+                return (st[0], S.descriptor(*ILLEGAL_OPCODE), b"")
+            return st
         f = C.decode(name, cdb)
         self.log.append((name, f))
         meth = self.handlers.get(name)
@@ -106,7 +111,12 @@ class LU:
         self._dataout = bytes(dataout or b"")
         self._xfer_in = xfer_in
         self._cdb = cdb
-        return getattr(self, meth)(f)
+        status, sense, data = getattr(self, meth)(f)
+        if status == S.CHECK_CONDITION and getattr(self, "d_sense", False) and sense and (sense[0] & 0x7F) == 0x70:
+            # control mode page D_SENSE=1: the logical unit reports descriptor format sense data
+            d = S.decode(sense)
+            sense = S.descriptor(d["key"], d["asc"], d["ascq"])
+        return status, sense, data
 
 
 class GenericLU(LU):
